@@ -148,10 +148,12 @@ func (r *tokReader) rl() rl {
 // ---------- requests ----------
 
 const (
-	kCreate = 1
-	kUpdate = 2
-	kDelete = 3
-	kEnv    = 4 // status update by the scheduler / queue controller: allocated pods and state (-1 = unchanged); not an admission request
+	kCreate    = 1
+	kUpdate    = 2
+	kDelete    = 3
+	kDeleteFin = 5 // DELETE of a queue with a finalizer: when admitted the object lingers as terminating
+	kGone      = 6 // the finalizer is removed: the object disappears (not an admission request)
+	kEnv       = 4 // status update by the scheduler / queue controller: allocated pods and state (-1 = unchanged); not an admission request
 )
 
 type qspec struct {
@@ -179,7 +181,7 @@ func (r request) enc() []int64 {
 		out = append(out, r.q.cap.enc()...)
 		out = append(out, r.q.des.enc()...)
 		return append(out, r.q.guar.enc()...)
-	case kDelete:
+	case kDelete, kDeleteFin, kGone:
 		return []int64{r.kind, r.q.name}
 	}
 	return []int64{r.kind, r.q.name, r.q.alloc, r.q.state}
@@ -198,7 +200,7 @@ func decRequest(r *tokReader) request {
 		q := qspec{name: r.next(), parent: r.next()}
 		q.cap, q.des, q.guar = r.rl(), r.rl(), r.rl()
 		return request{k, q}
-	case kDelete:
+	case kDelete, kDeleteFin, kGone:
 		return request{k, qspec{name: r.next()}}
 	}
 	return request{k, qspec{name: r.next(), alloc: r.next(), state: r.next()}}
@@ -251,12 +253,14 @@ type world struct {
 	// set once an admitted request has closed a cycle of parent links (or given root a parent): the real code's
 	// recursions over such a lister need not terminate, so nothing more is run (verdict 98)
 	poisoned bool
-	dry      bool // validate only: an admitted request is not applied (concurrent admissions)
-	cfg      config
-	indexer  cache.Indexer
-	inf      cache.SharedIndexInformer
-	lister   schedulinglister.QueueLister
-	svc      *router.AdmissionService
+	dry      bool
+	// requests on which GetQueuesByParent's two lookup paths led to different verdicts
+	pathsDisagree int // validate only: an admitted request is not applied (concurrent admissions)
+	cfg           config
+	indexer       cache.Indexer
+	inf           cache.SharedIndexInformer
+	lister        schedulinglister.QueueLister
+	svc           *router.AdmissionService
 }
 
 func newWorld(cfg config, q0 []qspec) *world {
@@ -413,7 +417,7 @@ func (w *world) step(r request) int64 {
 		return vNotRun
 	}
 	v := w.step1(r)
-	if v == vAllowed && r.kind != kEnv {
+	if v == vAllowed && r.kind != kEnv && r.kind != kGone {
 		w.poisoned = w.cyclic()
 	}
 	return v
@@ -455,17 +459,57 @@ func (w *world) applyReq(r request) {
 		if cur != nil {
 			obj := buildQueue(r.q)
 			obj.Status = *cur.Status.DeepCopy()
+			obj.DeletionTimestamp = cur.DeletionTimestamp
+			obj.Finalizers = cur.Finalizers
 			w.indexer.Update(obj)
 		}
 	case kDelete:
 		if cur != nil {
 			w.indexer.Delete(cur)
 		}
+	case kDeleteFin:
+		if cur != nil { // the object stays, terminating, until its finalizer is removed
+			n := cur.DeepCopy()
+			if n.DeletionTimestamp == nil {
+				ts := metav1.Unix(1700000000, 0)
+				n.DeletionTimestamp = &ts
+				n.Finalizers = []string{"verif.volcano.sh/hold"}
+			}
+			w.indexer.Update(n)
+		}
 	}
+}
+
+// terminating: ids of the stored queues that carry a deletionTimestamp
+func (w *world) terminating() []int64 {
+	out := []int64{}
+	for _, o := range w.indexer.List() {
+		if q := o.(*schedulingv1beta1.Queue); q.DeletionTimestamp != nil {
+			out = append(out, specOf(q).name)
+		}
+	}
+	sort.Slice(out, func(i, j int) bool { return out[i] < out[j] })
+	return out
 }
 
 func (w *world) step1(r request) int64 {
 	old := w.get(r.q.name)
+	if r.kind == kGone {
+		if old == nil {
+			return vNotInvoked
+		}
+		// (modelled for a queue without children that is neither root nor default)
+		kids := 0
+		for _, o := range w.indexer.List() {
+			if o.(*schedulingv1beta1.Queue).Spec.Parent == old.Name {
+				kids++
+			}
+		}
+		if kids == 0 && r.q.name != 1 && r.q.name != 2 && !w.dry {
+			w.indexer.Delete(old)
+		}
+		return vAllowed
+	}
 	if r.kind == kEnv {
 		if old == nil {
 			return vNotInvoked
@@ -499,7 +543,7 @@ func (w *world) step1(r request) int64 {
 		obj.Status = *old.Status.DeepCopy()
 		req.Object = raw(obj)
 		req.OldObject = raw(old)
-	case kDelete:
+	case kDelete, kDeleteFin:
 		req.Operation = admissionv1.Delete
 		obj = old
 		if obj == nil {
@@ -514,13 +558,15 @@ func (w *world) step1(r request) int64 {
 	ar := admissionv1.AdmissionReview{Request: req}
 	before := w.dump()
 	va := w.call(ar, true)
-	if r.kind == kDelete {
+	if r.kind == kDelete || r.kind == kDeleteFin {
 		// a real API server sends no Object for DELETE (the repo's unit tests send one): second call without
 		req.Object = runtime.RawExtension{}
 	}
 	vb := w.call(ar, false)
 	if va != vb {
-		panic(fmt.Sprintf("GetQueuesByParent: informer index and lister fallback disagree (%d vs %d)", va, vb))
+		// the verdict of the production path (informer + parent index) is the one reported and applied, so
+		// that the laws judge what the webhook-manager would do; the disagreement itself is reported by tag 903
+		w.pathsDisagree++
 	}
 	if fmt.Sprint(before) != fmt.Sprint(w.dump()) {
 		panic("the webhook modified an object held by the lister")
@@ -651,6 +697,7 @@ func capacityCache() *schedcache.SchedulerCache {
 }
 
 const tagCapacity = 901
+const tagPaths = 903
 
 const tagFinal = 900
 
@@ -706,9 +753,12 @@ func run(sel int, in []int64) []int64 {
 	out = append(out, w.dump()...)
 	out = append(out, tag(tagCapacity)...)
 	if w.poisoned {
-		return append(out, 2) // a cycle of parent links: the plugin's recursions are not run on it
+		out = append(out, 2) // a cycle of parent links: the plugin's recursions are not run on it
+	} else {
+		out = append(out, vh.B(capacityReady(w.queues())))
 	}
-	return append(out, vh.B(capacityReady(w.queues())))
+	out = append(out, tag(tagPaths)...)
+	return append(out, vh.B(w.pathsDisagree == 0))
 }
 
 // ---------- laws: the implementation's verdicts replayed by the extracted checker ----------
@@ -731,37 +781,52 @@ func laws(sel int, in, got []int64, law func(lsel int, lin []int64, sig string))
 	law(103, lin, "")
 	law(104, lin, "")
 	law(105, lin, "")
-	law(106, append(append([]int64{}, lin...), got[len(got)-1]), "")
+	law(106, append(append([]int64{}, lin...), got[len(got)-3]), "")
 	// 107: the deletion clause of the property text at full strength (no admitted DELETE of a queue with
 	// allocated pods, whatever the configuration).  Known finding: with EnableQueueAllocatedPodsCheck off
 	// (the default) the webhook does not look at the allocated pods; the sig names exactly that class.
 	sig := ""
 	if h.cfg.allocCheck == 0 {
-		alloc := map[int64]int64{}
+		type sh struct{ alloc, parent int64 }
+		shadow := map[int64]*sh{}
 		for _, q := range h.q0 {
-			if _, dup := alloc[q.name]; !dup {
-				alloc[q.name] = q.alloc
+			if _, dup := shadow[q.name]; !dup {
+				shadow[q.name] = &sh{q.alloc, q.parent}
 			}
 		}
 		for i, r := range h.reqs {
 			if got[2*i+1] != vAllowed {
 				continue
 			}
-			_, exists := alloc[r.q.name]
+			e, exists := shadow[r.q.name]
 			switch r.kind {
 			case kCreate:
 				if !exists {
-					alloc[r.q.name] = 0
+					shadow[r.q.name] = &sh{0, r.q.parent}
+				}
+			case kUpdate:
+				if exists {
+					e.parent = r.q.parent
 				}
 			case kEnv:
 				if exists && r.q.alloc >= 0 {
-					alloc[r.q.name] = r.q.alloc
+					e.alloc = r.q.alloc
 				}
-			case kDelete:
-				if exists && alloc[r.q.name] != 0 {
+			case kDelete, kDeleteFin:
+				if exists && e.alloc != 0 {
 					sig = "C10-delete-allocated-pods-flag-off"
 				}
-				delete(alloc, r.q.name)
+				if r.kind == kDelete {
+					delete(shadow, r.q.name)
+				}
+			case kGone:
+				kids := false
+				for _, x := range shadow {
+					kids = kids || x.parent == r.q.name
+				}
+				if exists && !kids && r.q.name > 2 {
+					delete(shadow, r.q.name)
+				}
 			}
 		}
 	}
